@@ -194,7 +194,8 @@ Fixpoint okey_ok (t : oty) : bool :=
   | OSeq SVec t' | OSeq SBTreeSet t' => okey_ok t'
   | OSeq _ _ => false
   | OArray _ t' => okey_ok t'
-  | OProd k ts => (forallb negb (prod_skips k (length ts))) && forallb (fun x => okey_ok x) ts
+  | OProd k ts => negb (match k with PSockV6 => true | _ => false end) &&
+                  (forallb negb (prod_skips k (length ts))) && forallb (fun x => okey_ok x) ts
   | OSum _ vs => forallb (fun x => okey_ok x) vs
   | OWrap (WBox | WRc | WArc | WCow) t' => okey_ok t'
   | OWrap _ _ => false
